@@ -266,6 +266,14 @@ func (mbs *metadataPartStorage) AppendObject(ctx context.Context, bucketName sto
 			Size:         totalSize,
 			Parts:        allParts,
 		}
+		if existingObject != nil {
+			// An append that is stored as a new version row must carry the
+			// existing object's metadata, tags and storage class over, like the
+			// in-place update does.
+			updatedObject.Metadata = existingObject.Metadata
+			updatedObject.Tags = existingObject.Tags
+			updatedObject.StorageClass = existingObject.StorageClass
+		}
 
 		metaOpts := &metadatastore.AppendObjectOptions{}
 		metadataResult, err := mbs.metadataStore.AppendObject(ctx, tx.SqlTx(), bucketName, updatedObject, metaOpts)
